@@ -177,6 +177,46 @@ def judge_ref(rc):
     return None
 
 
+WIDE_ELEMENTS = ((1001, 7, 0), (7001, 15, -400))      # (id, table width, reference); both have scale 0
+
+
+def judge_wide(job):
+    """Quant.WideFits: a raw value (any size, as bits) offered to a field of n bits, n = 1..64, scale 0.  Uncompressed it
+    is stored exactly (all ones reads back as missing) or - when its bit length exceeds n - refused."""
+    from pybufrkit.encoder import Encoder
+    from pybufrkit.decoder import Decoder
+    n, row = job
+    raw = int(''.join(str(b) for b in row['raw']), 2)
+    for eid, w0, ref in WIDE_ELEMENTS:
+        ids = ([201000 + 128 + n - w0] if n != w0 else []) + [eid]
+        x = raw + ref
+        feat = 'n=%d,id=%06d,%s' % (n, eid, 'fits' if row['fits'] else 'too-wide')
+        for cmp_, subsets, k in ((False, [[x]], 0), (True, [[ref], [x]], 1), (True, [[x], [ref + 1 if n > 1 else ref]], 0)):
+            try:
+                b = Encoder().process(pyb.flat_json(4, ids, len(subsets), cmp_, subsets)).serialized_bytes
+            except Exception:
+                continue                   # refused: always permitted
+            try:
+                got = pyb.values_of(Decoder().process(b), k)[-1]
+            except Exception as e:
+                return (('quant', 'wide', 'decode-of-accepted:' + type(e).__name__, feat), 'raw %d in %d bits accepted but the result does not decode: %r' % (raw, n, e))
+            if not cmp_ and not row['fits']:
+                return (('quant', 'wide', 'out-of-range-accepted', feat),
+                        'uncompressed: raw %d (user value %d) does not fit %d bits but was stored; it reads back as %r' % (raw, x, n, got))
+            if got is None:
+                if not (row['missing'] or (cmp_ and not row['fits'])):
+                    return (('quant', 'wide', 'altered-to-missing', feat), '%s: user value %d reads back as missing' % ('compressed' if cmp_ else 'uncompressed', x))
+            elif got != x or isinstance(got, float) and int(got) != x:
+                return (('quant', 'wide', 'altered', feat), '%s: user value %d (raw %d, %d bits wide field) reads back as %r' % ('compressed' if cmp_ else 'uncompressed', x, raw, n, got))
+            elif row['missing'] and not cmp_:
+                return (('quant', 'wide', 'allones-not-missing', feat), 'raw all ones read back as the value %r' % (got,))
+    return None
+
+
+def _judge_wide_many(jobs):
+    return [judge_wide(j) for j in jobs]
+
+
 def _judge_many(cs):
     return [judge(c) for c in cs]
 
@@ -267,7 +307,21 @@ def run(run):
         run.add_tlc(res, 'Quant: %d cases x inputs around the edges' % len(cs))
         items = list(res.iter_emitted())
         reftab = [x for x in items if 'reftable' in x]
-        items = [x for x in items if 'reftable' not in x]
+        widetab = [x for x in items if 'widetable' in x]
+        items = [x for x in items if 'reftable' not in x and 'widetable' not in x]
+        if len(widetab) != 64:
+            raise MachineryError('Quant printed %d of the 64 wide-range tables' % len(widetab))
+        wjobs = [(t['widetable'], row) for t in sorted(widetab, key=lambda t: t['widetable']) for row in t['rows']]
+        wchunks = [wjobs[i:i + 80] for i in range(0, len(wjobs), 80)]
+        with mp.get_context('fork').Pool(14, initializer=fm94._init_worker) as pool:
+            wout = [x for c in pool.map(_judge_wide_many, wchunks) for x in c]
+        for (n, row), bad in zip(wjobs, wout):
+            run.traces += 1
+            run.nontriv(('wide', n, tuple(row['raw'])))
+            if bad:
+                run.violation(bad[0], bad[1], {'kind': 'wide', 'case': [n, row]})
+        run.notes['wide_range_cases'] = len(wjobs)
+        run.notes['wide_range_cases_that_must_be_refused'] = sum(1 for _, r in wjobs if not r['fits'])
         if not reftab:
             raise MachineryError('Quant did not print the table of new reference values')
         for rc in reftab[0]['reftable']:
@@ -327,6 +381,10 @@ def replay(run, path):
         bad = judge(d['case'])
     elif d.get('kind') == 'behaviour':
         bad = fix_one(d['behaviour'])
+    elif d.get('kind') == 'wide':
+        bad = judge_wide(tuple(d['case']))
+    elif d.get('kind') == 'refval':
+        bad = judge_ref(d['case'])
     else:
         print('corpus case: re-run the check')
         return 0
